@@ -33,6 +33,15 @@
 //!   fill the harness records the source list and the attributes lyon computed; the Lean model
 //!   (`Reset.interpAll`, started from a buffer full of junk) must reproduce them bit for bit
 //!   (checker family: the model's verdict is a second oracle).
+//! * `sweep_reuse:32` — the COMPLETE sweep model on a USED object (`Model/Tess/ResetSweep.lean`): one
+//!   real `FillTessellator` goes through a history of 2–5 calls on polygonal input (five entry points,
+//!   invalid tolerances, intersections ignored on intersecting input, a NaN / infinite coordinate in a
+//!   call of the history — `Err(PositionIsNaN)` / `Err(Internal(..))` part-way —, a geometry builder
+//!   refusing the k-th vertex, a `FillBuilder` dropped without `build`); IMPL is every call's complete
+//!   emission sequence (outcome, vertices with their sibling edge records through hook H1, triangles,
+//!   in order), MODEL is `Sweep.fillObj` run over the same history, each call started from the state
+//!   the model of the previous call left behind.  Its oracle clause `sweep_reuse/fresh-equal` compares
+//!   every call on the reused object with a fresh real object at that level of detail.
 
 use lyon_path::math::{point, vector, Angle, Box2D, Point};
 use lyon_path::traits::{Build, PathBuilder};
@@ -1016,12 +1025,453 @@ fn interp_case(ctx: &mut Ctx) {
     });
 }
 
+// ---------------------------------------------------------------------------------------------
+// Family `sweep_reuse:32`: the sweep model on a USED object (`Model/Tess/ResetSweep.lean`).
+//
+// ONE real `FillTessellator` goes through a history of 2–5 calls on polygonal input: any of the five
+// entry points, both rules and orientations, valid and invalid tolerances, `handle_intersections`
+// off on inputs that do intersect (the sweep returns `Err(Internal(..))` or panics part-way and
+// leaves spans, edges and a half-processed event behind), a geometry builder that refuses the k-th
+// vertex (the call is aborted part-way), a `FillBuilder` dropped without `build`.  IMPL is, call by
+// call, the COMPLETE emission sequence the geometry builder saw (outcome, every `add_fill_vertex`
+// with its output position and sibling edge records — hook H1 —, every `add_triangle`, in order).
+// MODEL is `Sweep.fillObj` run over the same history from `St.fresh`: every call starts from the
+// state the MODEL of the previous call left behind (`tessellateFrom`: pooled monotone tessellators,
+// spans, edges, queue), not from a fresh state.  Oracle `sweep_reuse/fresh-equal`: each call's
+// emission on the reused real object equals that of a fresh real object, token for token.
+
+struct ReuseLog {
+    o: Out,
+    nv: u32,
+    /// the k-th vertex offered is refused (1-based; 0 = never)
+    refuse_at: u32,
+}
+
+impl GeometryBuilder for ReuseLog {
+    fn add_triangle(&mut self, a: VertexId, b: VertexId, c: VertexId) {
+        self.o.t("t").u(a.0 as u64).u(b.0 as u64).u(c.0 as u64);
+    }
+    // abort_geometry: what was emitted stays in the log (the model predicts it as well)
+}
+
+impl FillGeometryBuilder for ReuseLog {
+    fn add_fill_vertex(&mut self, v: FillVertex) -> Result<VertexId, GeometryBuilderError> {
+        if self.refuse_at != 0 && self.nv + 1 == self.refuse_at {
+            return Err(GeometryBuilderError::InvalidVertex);
+        }
+        let recs = v.verif_sibling_records();
+        self.o.t("v").p(v.position()).u(recs.len() as u64);
+        for r in &recs {
+            self.o.t(if r.is_edge { "e" } else { "p" }).p(r.position);
+            if r.is_edge {
+                self.o.p(r.to);
+            }
+            self.o.f(r.range.start).f(r.range.end).i(r.winding as i64).u(r.from_id.0 as u64).u(r.to_id.0 as u64);
+        }
+        self.nv += 1;
+        Ok(VertexId(self.nv - 1))
+    }
+}
+
+// (copy of `gen_sweep_stress` of `c01.rs`: the inputs on which the sweep fails or recovers)
+/// Inputs aimed at the rarely taken branches of the sweep (flipped intersections, the
+/// `next_after` fix-up, snapping, coincident edges, merge vertices during error recovery).
+fn gen_sweep_stress(rng: &mut Rng) -> vh::fillgen::Poly {
+    use vh::fillgen::Poly;
+    use lyon_path::math::point;
+    match rng.below(6) {
+        0 => {
+            // near-level: wide in x, ordinates a few ulps apart -> crossings of almost horizontal edges
+            let n = rng.range(4, 9) as usize;
+            let base = *rng.pick(&[0.0f32, 1.0, 100.0, 1000.0, 4096.0]);
+            let ulp = (base.max(1.0e-3)) * f32::EPSILON;
+            let pts = (0..n)
+                .map(|_| point(rng.uniform(-50.0, 50.0) as f32, base + rng.range(-6, 6) as f32 * ulp * *rng.pick(&[1.0f32, 1.0, 8.0, 1000.0])))
+                .collect();
+            Poly { subs: vec![(pts, true)], kind: "near-level" }
+        }
+        1 => {
+            // large fractional coordinates: intersection points round coarsely
+            let n = rng.range(4, 9) as usize;
+            let s = *rng.pick(&[1.0e3f64, 1.0e4, 1.0e5]);
+            let pts = (0..n).map(|_| point(rng.uniform(-s, s) as f32, rng.uniform(-s, s) as f32)).collect();
+            Poly { subs: vec![(pts, true)], kind: "big-coords" }
+        }
+        2 => {
+            // several overlapping random triangles / quads: many crossings and merge vertices
+            let k = rng.range(2, 5) as usize;
+            let mut subs = Vec::new();
+            for _ in 0..k {
+                let n = rng.range(3, 4) as usize;
+                subs.push(((0..n).map(|_| point(rng.uniform(0.0, 10.0) as f32, rng.uniform(0.0, 10.0) as f32)).collect(), true));
+            }
+            Poly { subs, kind: "overlap-many" }
+        }
+        3 => {
+            // fans of almost equal slopes from a shared apex, ends at different heights
+            let apex = point(rng.uniform(-1.0, 1.0) as f32, 0.0);
+            let k = rng.range(2, 4) as usize;
+            let dir = rng.uniform(-2.0, 2.0);
+            let mut subs = Vec::new();
+            for _ in 0..k {
+                let len = rng.uniform(2.0, 10.0);
+                let d = dir + rng.uniform(-1.0, 1.0) * *rng.pick(&[1.0e-3f64, 1.0e-4, 3.0e-5, 1.0e-6, 0.0]);
+                let far = if rng.chance(1, 4) {
+                    // almost horizontal fan: slope through the inverse branch of the angle test
+                    point(apex.x + len as f32, (len * 1.0e-3 * d) as f32)
+                } else {
+                    point(apex.x + (d * len) as f32, len as f32)
+                };
+                let third = point(far.x + rng.uniform(-3.0, 3.0) as f32, far.y + rng.uniform(-1.0, 3.0) as f32);
+                subs.push((vec![apex, far, third], true));
+            }
+            Poly { subs, kind: "near-coincident" }
+        }
+        4 => {
+            // comb: many merge and split vertices, then a bar across (merge vertices + crossings)
+            let teeth = rng.range(2, 4) as usize;
+            let mut pts = vec![point(0.0, 0.0)];
+            let up = rng.chance(1, 2);
+            for i in 0..teeth {
+                let x = i as f32 * 2.0;
+                let h = rng.uniform(2.0, 6.0) as f32;
+                pts.push(point(x + 0.5 + rng.uniform(-0.3, 0.3) as f32, if up { -h } else { h }));
+                pts.push(point(x + 2.0, rng.uniform(-0.5, 0.5) as f32));
+            }
+            pts.push(point(teeth as f32 * 2.0, if up { 3.0 } else { -3.0 }));
+            pts.push(point(0.0, if up { 3.0 } else { -3.0 }));
+            let y = rng.uniform(-5.0, 5.0) as f32;
+            let bar = vec![
+                point(-1.0, y),
+                point(teeth as f32 * 2.0 + 1.0, y + rng.uniform(-1.0, 1.0) as f32),
+                point(teeth as f32 + rng.uniform(-2.0, 2.0) as f32, y + rng.uniform(0.5, 2.0) as f32),
+            ];
+            let mut p = Poly { subs: vec![(pts, true), (bar, true)], kind: "comb" };
+            if rng.chance(1, 2) {
+                p.transform(|q| point(q.y, q.x));
+            }
+            p
+        }
+        _ => {
+            // lattice zig-zags sharing many vertices and collinear overlapping edges
+            let k = rng.range(2, 3) as usize;
+            let mut subs = Vec::new();
+            for _ in 0..k {
+                let n = rng.range(4, 7) as usize;
+                subs.push(((0..n).map(|_| point(rng.range(0, 4) as f32, rng.range(0, 4) as f32)).collect(), true));
+            }
+            Poly { subs, kind: "small-lattice" }
+        }
+    }
+}
+
+/// (copy of four arms of `gen_sweep_directed` of `c01.rs`) inputs on which — with
+/// `handle_intersections` off — the sweep returns `Err(Internal(..))`, panics part-way or ends with
+/// spans left over: the calls that leave the most behind in the object.  Returns the polygon and the
+/// share (in eighths) of calls to run with intersections ignored.
+fn gen_sweep_broken(rng: &mut Rng) -> (vh::fillgen::Poly, Option<f32>, u64) {
+    use vh::fillgen::Poly;
+    let j = |rng: &mut Rng, a: f64| rng.uniform(-a, a) as f32;
+    match rng.below(4) {
+        0 => {
+            // a notch (merge vertex) whose enclosing walls are crossed, below the merge vertex and
+            // before it is resolved, by another sub-path: with handle_intersections off the sort of
+            // the recovery leaves the merge vertex outside and it has to be moved back
+            let h1 = rng.uniform(0.5, 2.0) as f32;
+            let hh = rng.uniform(4.0, 8.0) as f32;
+            let notch = vec![point(0.0, 0.0), point(1.0 + j(rng, 0.3), h1), point(2.0, j(rng, 0.3)), point(2.0 + j(rng, 0.5), hh), point(j(rng, 0.5), hh + j(rng, 0.5))];
+            let y0 = rng.uniform(-1.0, (h1 + 1.0) as f64) as f32;
+            let zx = rng.uniform(0.2, 1.8) as f32;
+            let zy = rng.uniform(h1 as f64 + 0.3, hh as f64 - 0.3) as f32;
+            let mut z = vec![point(-3.0, y0), point(-1.0, y0 + j(rng, 0.5)), point(zx, zy)];
+            if rng.chance(1, 2) {
+                z.push(point(-3.0 + j(rng, 1.0), zy + rng.uniform(0.2, 2.0) as f32));
+            }
+            if rng.chance(1, 2) {
+                z.reverse();
+            }
+            let mut p = Poly { subs: if rng.chance(1, 2) { vec![(notch, true), (z, true)] } else { vec![(z, true), (notch, true)] }, kind: "merge-cross" };
+            if rng.chance(1, 2) {
+                p.transform(|q| point(2.0 - q.x, q.y));
+            }
+            (p, None, 6)
+        }
+        1 => {
+            // a notch whose walls cross each other below the merge vertex (bow-tie)
+            let h1 = rng.uniform(0.3, 1.5) as f32;
+            let hh = rng.uniform(3.0, 8.0) as f32;
+            let xr = rng.uniform(-3.0, 1.0) as f32;
+            let xl = xr + rng.uniform(0.5, 4.0) as f32;
+            let mut pts = vec![point(0.0, 0.0), point(1.0 + j(rng, 0.3), h1), point(2.0, j(rng, 0.2)), point(xr, hh), point(xl, hh + j(rng, 1.0))];
+            if rng.chance(1, 3) {
+                // a second notch next to the first
+                pts.insert(3, point(3.0, h1 + j(rng, 0.5)));
+                pts.insert(4, point(4.0, j(rng, 0.2)));
+            }
+            let mut subs = vec![(pts, true)];
+            if rng.chance(1, 2) {
+                subs.push((vec![point(j(rng, 4.0), j(rng, 4.0) + 3.0), point(j(rng, 4.0), j(rng, 4.0) + 3.0), point(j(rng, 4.0), j(rng, 4.0) + 3.0)], true));
+            }
+            (Poly { subs, kind: "merge-bowtie" }, None, 6)
+        }
+        2 => {
+            // chaos with intersections ignored: overlapping slivers and triangles on a tiny lattice with
+            // ulp-sized jitter (broken sweep states: errors that survive the recovery, spans left over)
+            let k = rng.range(3, 6) as usize;
+            let mut subs = Vec::new();
+            let jit = *rng.pick(&[0.0f64, 1.0e-6, 1.0e-3, 0.2]);
+            for _ in 0..k {
+                let n = rng.range(3, 5) as usize;
+                subs.push(((0..n).map(|_| point(rng.range(0, 5) as f32 + j(rng, jit), rng.range(0, 5) as f32 + j(rng, jit))).collect(), true));
+            }
+            (Poly { subs, kind: "chaos" }, None, 7)
+        }
+        _ => {
+            // several notches (a comb) with teeth of nearly equal depth, crossed by thin slivers
+            let teeth = rng.range(2, 5) as usize;
+            let depth = rng.uniform(1.0, 4.0) as f32;
+            let mut pts = vec![point(-1.0, -1.0)];
+            for i in 0..teeth {
+                let x = i as f32 * 2.0;
+                pts.push(point(x, depth + j(rng, 1.0e-3) * *rng.pick(&[0.0f32, 1.0, 1000.0])));
+                pts.push(point(x + 1.0, j(rng, 0.5)));
+            }
+            let w = teeth as f32 * 2.0;
+            pts.push(point(w, -1.0));
+            pts.push(point(w + j(rng, 1.0), depth + rng.uniform(1.0, 5.0) as f32));
+            pts.push(point(-1.0 + j(rng, 1.0), depth + rng.uniform(1.0, 5.0) as f32));
+            let mut subs = vec![(pts, true)];
+            for _ in 0..rng.range(1, 3) {
+                let y = depth + rng.uniform(-0.5, 3.0) as f32;
+                subs.push((vec![point(-2.0, y), point(w + 1.0, y + j(rng, 2.0)), point(w + 1.0, y + j(rng, 2.0) + 0.3)], true));
+            }
+            let mut p = Poly { subs, kind: "comb-slivers" };
+            if rng.chance(1, 2) {
+                p.transform(|q| point(q.x, -q.y));
+            }
+            (p, None, 5)
+        }
+    }
+}
+
+#[derive(Clone)]
+struct RCall {
+    poly: vh::fillgen::Poly,
+    cfg: vh::fillgen::FillCfg,
+    handle_ix: bool,
+    refuse: u32,
+    dropped: bool,
+}
+
+impl RCall {
+    fn gen(rng: &mut Rng, last: bool) -> RCall {
+        let mut tol_override = None;
+        let mut noix_share = 0u64;
+        let poly = if rng.chance(1, 12) {
+            let (p, tol) = vh::fillgen::gen_poly_extreme(rng);
+            tol_override = Some(tol);
+            p
+        } else if rng.chance(1, 3) {
+            gen_sweep_stress(rng)
+        } else if rng.chance(1, 3) {
+            let (p, _, share) = gen_sweep_broken(rng);
+            noix_share = share;
+            p
+        } else {
+            gen_poly(rng, 14)
+        };
+        let mut poly = poly;
+        let mut cfg = vh::fillgen::FillCfg::gen(rng);
+        if let Some(t) = tol_override {
+            cfg.tolerance = t;
+        }
+        // a call of the HISTORY may be given a path with one NaN / infinite coordinate: the sweep then
+        // returns `Err(PositionIsNaN)` or `Err(Internal(..))` part-way, with spans and edges alive
+        let mut nonfinite = false;
+        if !last && rng.chance(1, 6) {
+            let bad = *rng.pick(&[f32::NAN, f32::NAN, f32::INFINITY, f32::NEG_INFINITY]);
+            let n: usize = poly.subs.iter().map(|s| s.0.len()).sum();
+            if n > 0 {
+                let mut k = rng.below(n as u64) as usize;
+                for s in &mut poly.subs {
+                    if k < s.0.len() {
+                        if rng.chance(1, 2) {
+                            s.0[k].x = bad;
+                        } else {
+                            s.0[k].y = bad;
+                        }
+                        break;
+                    }
+                    k -= s.0.len();
+                }
+                nonfinite = true;
+                poly.kind = "nonfinite";
+            }
+        }
+        if !last && rng.chance(1, 10) {
+            cfg.tolerance = *rng.pick(&[0.0f32, f32::NAN, -0.5]);
+        }
+        // the calls of the history often break the precondition of `handle_intersections = false`:
+        // that is what leaves the most behind
+        let handle_ix = if noix_share > 0 {
+            !rng.chance(noix_share, 8)
+        } else if last {
+            !rng.chance(1, 8)
+        } else {
+            !rng.chance(1, 3)
+        };
+        let normal = last && rng.chance(3, 4);
+        let refuse = if !normal && rng.chance(3, 10) { rng.range(1, 9) as u32 } else { 0 };
+        let dropped = !normal && cfg.entry == 4 && rng.chance(1, 5);
+        let mut c = RCall { poly, cfg, handle_ix, refuse, dropped };
+        if nonfinite && !c.returns_in_time() {
+            // on a few NaN inputs the real code loops forever or panics inside the queue's sort; those
+            // are not part of the stream — the coordinate is zeroed
+            c.poly.transform(|q| point(if q.x.is_finite() { q.x } else { 0.0 }, if q.y.is_finite() { q.y } else { 0.0 }));
+            c.poly.kind = "nonfinite-screened";
+        }
+        c
+    }
+
+    fn put(&self, o: &mut Out) {
+        self.cfg.put(o);
+        o.b(self.handle_ix).u(self.refuse as u64).b(self.dropped);
+        o.u(self.poly.subs.len() as u64);
+        for (pts, closed) in &self.poly.subs {
+            o.u(pts.len() as u64).b(*closed);
+            for p in pts {
+                o.p(*p);
+            }
+        }
+    }
+
+    /// one call on `tess`; returns the tokens of the call and whether it panicked
+    fn run(&self, tess: &mut FillTessellator) -> (String, bool) {
+        let opts = self.cfg.options().with_intersections(self.handle_ix);
+        let path = self.poly.to_path();
+        let mut log = ReuseLog { o: Out::new(), nv: 0, refuse_at: self.refuse };
+        let r = guarded(|| match self.cfg.entry {
+            0 => tess.tessellate(path.iter(), &opts, &mut log),
+            1 => tess.tessellate_path(&path, &opts, &mut log),
+            2 => tess.tessellate_with_ids(path.id_iter(), &path, None, &opts, &mut log),
+            3 if self.poly.subs.len() == 1 && !self.poly.subs[0].0.is_empty() => {
+                let (pts, closed) = &self.poly.subs[0];
+                tess.tessellate_polygon(Polygon { points: &pts[..], closed: *closed }, &opts, &mut log)
+            }
+            3 => tess.tessellate(path.iter(), &opts, &mut log),
+            _ => {
+                let mut b = tess.builder(&opts, &mut log);
+                for (pts, closed) in &self.poly.subs {
+                    if pts.is_empty() {
+                        continue;
+                    }
+                    b.begin(pts[0]);
+                    for p in &pts[1..] {
+                        b.line_to(*p);
+                    }
+                    b.end(*closed);
+                }
+                if self.dropped {
+                    drop(b);
+                    Ok(())
+                } else {
+                    b.build()
+                }
+            }
+        });
+        match r {
+            None => ("call panic".to_string(), true),
+            Some(Ok(())) => (format!("call ok {}", log.o.0).trim_end().to_string(), false),
+            Some(Err(e)) => (format!("call err {} {}", format!("{:?}", e).replace(' ', "_"), log.o.0).trim_end().to_string(), false),
+        }
+    }
+
+    /// does the call return (no hang, no panic) on a fresh tessellator within two seconds?  Used only
+    /// to screen non-finite inputs; a hung run is left behind in its thread.
+    fn returns_in_time(&self) -> bool {
+        let (tx, rx) = std::sync::mpsc::channel();
+        let c = self.clone();
+        std::thread::spawn(move || {
+            let (_, panicked) = c.run(&mut FillTessellator::new());
+            let _ = tx.send(!panicked);
+        });
+        matches!(rx.recv_timeout(std::time::Duration::from_secs(2)), Ok(true))
+    }
+
+    fn tag(&self) -> &'static str {
+        if self.poly.kind == "nonfinite" {
+            "nonfinite"
+        } else if self.dropped {
+            "dropped"
+        } else if self.refuse != 0 {
+            "refuse"
+        } else if self.cfg.tolerance.is_nan() || self.cfg.tolerance <= 0.0 {
+            "badtol"
+        } else if !self.handle_ix {
+            "noix"
+        } else {
+            "plain"
+        }
+    }
+}
+
+fn sweep_reuse_case(ctx: &mut Ctx) {
+    ctx.case("sweep_reuse:32", |rng| {
+        let n = rng.range(2, 5) as usize;
+        let calls: Vec<RCall> = (0..n).map(|i| RCall::gen(rng, i + 1 == n)).collect();
+        let mut args = Out::new();
+        args.u(n as u64);
+        for c in &calls {
+            c.put(&mut args);
+        }
+        let hist: Vec<&str> = calls[..n - 1].iter().map(|c| c.tag()).collect();
+        let tag = format!(
+            "sweep_reuse n={} hist={} last={}/{}",
+            n,
+            hist.join("+"),
+            vh::fillgen::ENTRY_NAMES[calls[n - 1].cfg.entry],
+            calls[n - 1].tag()
+        );
+        (args, tag, move || {
+            let mut tess = FillTessellator::new();
+            let mut o = Out::new();
+            let mut orc = Oracle::new();
+            let mut unwound = false;
+            let mut known_last: Option<(usize, String, String)> = None;
+            for (i, c) in calls.iter().enumerate() {
+                let (toks, panicked) = c.run(&mut tess);
+                let (fresh, _) = c.run(&mut FillTessellator::new());
+                o.t(&toks);
+                if toks != fresh {
+                    if unwound {
+                        // registered last so that it cannot mask a difference without a prior unwind
+                        known_last.get_or_insert((i, toks.clone(), fresh.clone()));
+                    } else {
+                        orc.check(false, "sweep_reuse/fresh-equal", "generic", || {
+                            format!("call {} of the history differs from a fresh tessellator: reused `{}` fresh `{}`", i, toks, fresh)
+                        });
+                    }
+                }
+                unwound |= panicked;
+            }
+            if let Some((i, a, b)) = known_last {
+                orc.check(false, "sweep_reuse/fresh-equal", "after-unwind", || {
+                    format!("call {} (after a call that panicked) differs: reused `{}` fresh `{}`", i, a, b)
+                });
+            }
+            CaseOut { imp: o, orcl: orc.verdict }
+        })
+    });
+}
+
+
 fn main() {
     let mut ctx = Ctx::from_args("C08");
     let n_hist_fill = ctx.n(12_000, 400_000);
     let n_hist_stroke = ctx.n(6000, 200_000);
     let n_mono = ctx.n(2000, 60_000);
     let n_interp = ctx.n(1500, 40_000);
+    let n_reuse = ctx.n(700, 25_000);
     for _ in 0..n_mono {
         mono_reuse_case(&mut ctx);
     }
@@ -1033,6 +1483,10 @@ fn main() {
     }
     for _ in 0..n_hist_stroke {
         history_case::<StrokeK>(&mut ctx, "hist_stroke", StrokeCall::gen, StrokeCall::tag);
+    }
+    // the sweep model on a reused object (ids after the older families, so those keep their ids)
+    for _ in 0..n_reuse {
+        sweep_reuse_case(&mut ctx);
     }
     ctx.finish();
 }
